@@ -1,3 +1,593 @@
+// End-to-end part of C08: a real MOSN in this process with bolt, dubbo-thrift, HTTP/1 and HTTP/2 listeners, scripted
+// upstreams (some answer with malformed bytes), persistent probe connections, and one fresh connection per poison of
+// the menu TLC prints from spec/server/Containment.tla.  Recorded: what every peer observed (ContainmentTrace).
 package main
 
-func runE2E(casesPath, tracePath string) {}
+import (
+	"bufio"
+	"bytes"
+	"crypto/tls"
+	"encoding/binary"
+	"encoding/json"
+	"fmt"
+	"io"
+	"net"
+	"net/http"
+	"os"
+	"strings"
+	"sync"
+	"time"
+
+	xhttp2 "golang.org/x/net/http2"
+	"golang.org/x/net/http2/h2c"
+	"golang.org/x/net/http2/hpack"
+	v2 "mosn.io/mosn/pkg/config/v2"
+	"mosn.io/mosn/pkg/metrics"
+	"verif/e2e"
+	"verif/vh"
+)
+
+type poison struct {
+	Proto string `json:"proto"`
+	Name  string `json:"name"`
+	Class string `json:"class"`
+	Side  string `json:"side"`
+}
+
+var (
+	waitSeen   = 8 * time.Second  // how long a peer waits for a reply or a close before it calls the connection silent
+	waitServe  = 20 * time.Second // a probe that is not answered by then is not answered
+	waitSettle = 10 * time.Second // gauges must be back by then
+)
+
+// ---------------------------------------------------------------- bolt peers
+
+func boltFrame(typ byte, id uint32, status uint16, kvs [][2]string, content []byte, hdrDelta int) []byte {
+	var hdr []byte
+	for _, kv := range kvs {
+		hdr = append(hdr, boltKV(kv[0], kv[1])...)
+	}
+	class := []byte("com.x.C08")
+	var b bytes.Buffer
+	b.Write([]byte{1, typ})
+	if typ == 0 {
+		b.Write(be16(2))
+	} else {
+		b.Write(be16(1))
+	}
+	b.WriteByte(1)
+	b.Write(be32(int(id)))
+	b.WriteByte(1)
+	if typ == 0 {
+		b.Write(be16(int(status)))
+	} else {
+		b.Write(be32(5000))
+	}
+	b.Write(be16(len(class)))
+	b.Write(be16(len(hdr) + hdrDelta))
+	b.Write(be32(len(content)))
+	b.Write(class)
+	b.Write(hdr)
+	for i := 0; i < hdrDelta; i++ {
+		b.WriteByte(0)
+	}
+	b.Write(content)
+	return b.Bytes()
+}
+
+// readBolt reads one bolt v1 frame (request or response) and returns type, id and the raw header block.
+func readBolt(r *bufio.Reader) (typ byte, id uint32, hdr []byte, err error) {
+	head := make([]byte, 2)
+	if _, err = io.ReadFull(r, head); err != nil {
+		return
+	}
+	typ = head[1]
+	n := 20
+	if typ != 0 {
+		n = 22
+	}
+	rest := make([]byte, n-2)
+	if _, err = io.ReadFull(r, rest); err != nil {
+		return
+	}
+	all := append(head, rest...)
+	id = binary.BigEndian.Uint32(all[5:9])
+	cl := int(binary.BigEndian.Uint16(all[n-8:]))
+	hl := int(binary.BigEndian.Uint16(all[n-6:]))
+	bl := int(binary.BigEndian.Uint32(all[n-4:]))
+	body := make([]byte, cl+hl+bl)
+	if _, err = io.ReadFull(r, body); err != nil {
+		return
+	}
+	hdr = body[cl : cl+hl]
+	return
+}
+
+// boltUpstream answers every request; the header "beh" of the request selects a malformed answer.
+func boltUpstream() string {
+	ln, err := net.Listen("tcp", "127.0.0.1:0")
+	vh.Must(err, "bolt upstream")
+	go func() {
+		for {
+			c, err := ln.Accept()
+			if err != nil {
+				return
+			}
+			go func(c net.Conn) {
+				defer c.Close()
+				r := bufio.NewReader(c)
+				for {
+					typ, id, hdr, err := readBolt(r)
+					if err != nil {
+						return
+					}
+					if typ == 0 {
+						continue
+					}
+					switch {
+					case bytes.Contains(hdr, []byte("garbage")):
+						c.Write([]byte{1, 0x7f, 0xde, 0xad, 0xbe, 0xef, 0, 1, 2, 3, 4, 5, 6, 7, 8, 9, 10, 11, 12, 13, 14, 15, 16, 17, 18, 19, 20, 21})
+					case bytes.Contains(hdr, []byte("dangling")):
+						c.Write(boltFrame(0, id, 0, [][2]string{{"service", "c08"}}, []byte("pong"), 1))
+					default:
+						c.Write(boltFrame(0, id, 0, [][2]string{{"service", "c08"}}, []byte("pong"), 0))
+					}
+				}
+			}(c)
+		}
+	}()
+	return ln.Addr().String()
+}
+
+// badHTTPUpstream answers every request with bytes that are no HTTP response.
+func badHTTPUpstream() string {
+	ln, err := net.Listen("tcp", "127.0.0.1:0")
+	vh.Must(err, "bad http upstream")
+	go func() {
+		for {
+			c, err := ln.Accept()
+			if err != nil {
+				return
+			}
+			go func(c net.Conn) {
+				defer c.Close()
+				r := bufio.NewReader(c)
+				for {
+					for {
+						line, err := r.ReadString('\n')
+						if err != nil {
+							return
+						}
+						if line == "\r\n" {
+							break
+						}
+					}
+					c.Write([]byte("BOGUS nonsense, no status line\r\n\x00\x01\x02\r\n\r\n"))
+				}
+			}(c)
+		}
+	}()
+	return ln.Addr().String()
+}
+
+// h2Upstream is a cleartext HTTP/2 server (prior knowledge) that echoes X-Token.
+func h2Upstream() string {
+	ln, err := net.Listen("tcp", "127.0.0.1:0")
+	vh.Must(err, "h2 upstream")
+	h := http.HandlerFunc(func(w http.ResponseWriter, r *http.Request) {
+		io.Copy(io.Discard, r.Body)
+		w.WriteHeader(200)
+		io.WriteString(w, r.Header.Get("X-Token"))
+	})
+	srv := &http.Server{Handler: h2c.NewHandler(h, &xhttp2.Server{})}
+	go srv.Serve(ln)
+	return ln.Addr().String()
+}
+
+// ---------------------------------------------------------------- the run
+
+// ftrace writes every event straight to the file: if the proxy takes the process down, what happened before is on disk.
+type ftrace struct {
+	mu sync.Mutex
+	f  *os.File
+	n  int
+}
+
+func (t *ftrace) Emit(e vh.Ev) {
+	b, _ := json.Marshal(e)
+	t.mu.Lock()
+	t.f.Write(append(b, '\n'))
+	t.n++
+	t.mu.Unlock()
+}
+func (t *ftrace) Len() int { t.mu.Lock(); defer t.mu.Unlock(); return t.n }
+func (t *ftrace) Close()   { t.mu.Lock(); t.f.Sync(); t.mu.Unlock() }
+
+type e2eEnv struct {
+	tr    *ftrace
+	addr  map[string]string // proto -> listener address
+	idmu  sync.Mutex
+	nconn int
+}
+
+func (e *e2eEnv) newConn(proto string) (string, net.Conn, error) {
+	c, err := net.DialTimeout("tcp", e.addr[proto], 5*time.Second)
+	if err != nil {
+		return "", nil, err
+	}
+	e.idmu.Lock()
+	e.nconn++
+	id := fmt.Sprintf("%s-%d", proto, e.nconn)
+	e.idmu.Unlock()
+	e.tr.Emit(vh.Ev{"ev": "open", "c": id, "proto": proto})
+	return id, c, nil
+}
+
+// serveBolt sends a valid request and waits for its response.
+func serveBolt(c net.Conn, r *bufio.Reader, id uint32, beh string, d time.Duration) (bool, string) {
+	c.SetWriteDeadline(time.Now().Add(5 * time.Second))
+	if _, err := c.Write(boltFrame(1, id, 0, [][2]string{{"service", "c08"}, {"beh", beh}}, []byte("ping"), 0)); err != nil {
+		return false, "write: " + err.Error()
+	}
+	c.SetReadDeadline(time.Now().Add(d))
+	for {
+		typ, rid, _, err := readBolt(r)
+		if err != nil {
+			return false, "read: " + err.Error()
+		}
+		if typ == 0 && rid == id {
+			return true, "response"
+		}
+	}
+}
+
+func serveHTTP1(c net.Conn, r *bufio.Reader, path, tok string, d time.Duration) (bool, string) {
+	c.SetWriteDeadline(time.Now().Add(5 * time.Second))
+	if _, err := fmt.Fprintf(c, "GET %s HTTP/1.1\r\nHost: c08.test\r\nX-Token: %s\r\n\r\n", path, tok); err != nil {
+		return false, "write: " + err.Error()
+	}
+	c.SetReadDeadline(time.Now().Add(d))
+	resp, err := http.ReadResponse(r, nil)
+	if err != nil {
+		return false, "read: " + err.Error()
+	}
+	body, _ := io.ReadAll(resp.Body)
+	resp.Body.Close()
+	return resp.StatusCode == 200 && string(body) == tok, fmt.Sprintf("status %d", resp.StatusCode)
+}
+
+// observe waits for what the peer of a poisoned connection sees: bytes (reply), end of stream (closed) or nothing.
+func observe(c net.Conn, r *bufio.Reader, d time.Duration) (string, string) {
+	c.SetReadDeadline(time.Now().Add(d))
+	buf := make([]byte, 512)
+	n, err := r.Read(buf)
+	if n > 0 {
+		return "reply", clipHex(buf[:n], 24)
+	}
+	if ne, ok := err.(net.Error); ok && ne.Timeout() {
+		return "silent", ""
+	}
+	return "closed", fmt.Sprint(err)
+}
+
+// observeH2 reads server frames: HEADERS / RST_STREAM / GOAWAY count as a reply.
+func observeH2(c net.Conn, d time.Duration) (string, string) {
+	c.SetReadDeadline(time.Now().Add(d))
+	fr := xhttp2.NewFramer(io.Discard, c)
+	dec := hpack.NewDecoder(4096, nil)
+	for {
+		f, err := fr.ReadFrame()
+		if err != nil {
+			if ne, ok := err.(net.Error); ok && ne.Timeout() {
+				return "silent", ""
+			}
+			return "closed", fmt.Sprint(err)
+		}
+		switch x := f.(type) {
+		case *xhttp2.HeadersFrame:
+			status := "?"
+			if hs, err := dec.DecodeFull(x.HeaderBlockFragment()); err == nil {
+				for _, h := range hs {
+					if h.Name == ":status" {
+						status = h.Value
+					}
+				}
+			}
+			return "reply", "status " + status
+		case *xhttp2.RSTStreamFrame:
+			return "reply", "rst_stream " + x.ErrCode.String()
+		case *xhttp2.GoAwayFrame:
+			return "reply", "goaway " + x.ErrCode.String()
+		}
+	}
+}
+
+func h2Preface() []byte {
+	return append([]byte(xhttp2.ClientPreface), wireOf(h2shape{T: 4, Sid: 0, P: 6, L: 6})...)
+}
+
+func rawFrame(t byte, flags byte, sid uint32, length int, payload []byte) []byte {
+	hdr := []byte{byte(length >> 16), byte(length >> 8), byte(length), t, flags, byte(sid >> 24), byte(sid >> 16), byte(sid >> 8), byte(sid)}
+	return append(hdr, payload...)
+}
+
+// poisonBytes concretises a poison of the menu.
+func poisonBytes(p poison) []byte {
+	switch p.Proto + "/" + p.Name {
+	case "bolt/truncated-request":
+		return boltFrame(1, 77, 0, [][2]string{{"service", "c08"}}, []byte("ping"), 0)[:30]
+	case "bolt/body-length-16m":
+		f := boltFrame(1, 77, 0, [][2]string{{"service", "c08"}}, []byte("ping"), 0)
+		putField(f, 18, 4, 1<<24)
+		return f
+	case "bolt/body-length-max":
+		f := boltFrame(1, 77, 0, [][2]string{{"service", "c08"}}, []byte("ping"), 0)
+		putField(f, 18, 4, -1)
+		return f
+	case "bolt/unknown-command-type":
+		f := boltFrame(1, 77, 0, [][2]string{{"service", "c08"}}, []byte("ping"), 0)
+		f[1] = 0x7f
+		return f
+	case "bolt/header-block-dangling-byte":
+		return boltFrame(1, 77, 0, [][2]string{{"service", "c08"}}, []byte("ping"), 1)
+	case "bolt/header-key-longer-than-block":
+		f := boltFrame(1, 77, 0, [][2]string{{"service", "c08"}}, []byte("ping"), 0)
+		putField(f, 22+9, 4, 200) // the first key announces 200 bytes inside a 18 byte block
+		return f
+	case "bolt/response-header-dangling-byte":
+		return boltFrame(0, 77, 0, [][2]string{{"service", "c08"}}, []byte("pong"), 2)
+	case "bolt/noise":
+		return []byte{1, 1, 0xff, 0xfe, 0xfd, 0, 0, 0, 0, 9, 9, 9, 9, 0xff, 0xff, 0, 0, 0, 0, 0, 0, 1, 0x80, 0x80}
+	case "dubbothrift/frame-minus-2-bytes":
+		f := buildThrift(false, 77)
+		return f[:len(f)-2]
+	case "dubbothrift/outer-length-zero":
+		f := buildThrift(false, 77)
+		putField(f, 0, 4, 0)
+		return f
+	case "http1/not-http":
+		return []byte("BOGUS nonsense\r\n\r\n")
+	case "http1/headers-never-end":
+		return []byte("GET /p HTTP/1.1\r\nHost: c08.test\r\nX-A: b\r\n")
+	case "http1/negative-content-length":
+		return []byte("POST /p HTTP/1.1\r\nHost: c08.test\r\nContent-Length: -1\r\n\r\nabc")
+	case "http1/content-length-overflow":
+		return []byte("POST /p HTTP/1.1\r\nHost: c08.test\r\nContent-Length: 99999999999999999999999\r\n\r\nabc")
+	case "http1/header-line-64k":
+		return []byte("GET /p HTTP/1.1\r\nHost: c08.test\r\nX-Big: " + strings.Repeat("a", 65536) + "\r\n\r\n")
+	case "http2/bad-preface":
+		return []byte("PRI * HTTP/2.0\r\n\r\nXX\r\n\r\n\x00\x00\x00\x04\x00\x00\x00\x00\x00")
+	case "http2/frame-length-2p24":
+		return append(h2Preface(), rawFrame(0, 0, 1, 1<<24-1, []byte("data"))...)
+	case "http2/headers-hpack-index-zero":
+		return append(h2Preface(), rawFrame(1, 0x5, 1, 1, []byte{0x80})...)
+	case "http2/headers-three-continuations":
+		b := append(h2Preface(), rawFrame(1, 0x1, 1, 40, blockA())...)
+		b = append(b, rawFrame(9, 0, 1, 40, blockB())...)
+		b = append(b, rawFrame(9, 0, 1, 40, blockB())...)
+		return append(b, rawFrame(9, 0x4, 1, 40, blockB())...)
+	case "http2/half-frame":
+		return append(h2Preface(), rawFrame(1, 0x5, 1, 40, blockA())[:25]...)
+	case "http2/settings-length-5":
+		return append(h2Preface(), rawFrame(4, 0, 0, 5, []byte{0, 3, 0, 0, 0})...)
+	case "http2/window-update-zero":
+		return append(h2Preface(), rawFrame(8, 0, 0, 4, []byte{0, 0, 0, 0})...)
+	case "http2/continuation-without-headers":
+		return append(h2Preface(), rawFrame(9, 0x4, 1, 40, blockB())...)
+	}
+	return nil
+}
+
+func runE2E(casesPath, tracePath string) {
+	var menu []poison
+	vh.Must(vh.ReadCases(casesPath, func(raw json.RawMessage) error {
+		var p poison
+		if err := json.Unmarshal(raw, &p); err != nil {
+			return err
+		}
+		menu = append(menu, p)
+		return nil
+	}), "poison menu")
+	tf, err0 := os.Create(tracePath)
+	vh.Must(err0, "trace file")
+	tr := &ftrace{f: tf}
+	flush := func() { tr.Close() }
+
+	reg := e2e.NewRegistry()
+	good := e2e.NewHTTPUpstream("u1", reg)
+	defer good.Close()
+	badHTTP := badHTTPUpstream()
+	boltUp := boltUpstream()
+	dir, _ := os.MkdirTemp("", "c08-e2e-")
+	defer os.RemoveAll(dir)
+	env := &e2eEnv{tr: tr, addr: map[string]string{"bolt": e2e.FreeAddr(), "dubbothrift": e2e.FreeAddr(), "http1": e2e.FreeAddr(), "http2": e2e.FreeAddr()}}
+	svc := func(r *v2.Router) {
+		r.Match = v2.RouterMatch{Headers: []v2.HeaderMatcher{{Name: "service", Value: "c08"}}}
+	}
+	httpRoutes := []e2e.RouteSpec{{Prefix: "/bad", Cluster: "c08bad", TimeoutMs: 3000}, {Prefix: "/", Cluster: "c08good", TimeoutMs: 3000}}
+	listeners := []v2.Listener{
+		e2e.BuildListener(e2e.ListenerSpec{Name: "c08bolt", Addr: env.addr["bolt"], Downstream: "X", Upstream: "X", SubProto: "bolt",
+			Routes: []e2e.RouteSpec{{Prefix: "/", Cluster: "c08boltup", TimeoutMs: 3000, Extra: svc}}}),
+		e2e.BuildListener(e2e.ListenerSpec{Name: "c08thrift", Addr: env.addr["dubbothrift"], Downstream: "X", Upstream: "X", SubProto: "dubbo-thrift",
+			Routes: []e2e.RouteSpec{{Prefix: "/", Cluster: "c08boltup", TimeoutMs: 3000, Extra: svc}}}),
+		e2e.BuildListener(e2e.ListenerSpec{Name: "c08h1", Addr: env.addr["http1"], Downstream: "Http1", Upstream: "Http1", Routes: httpRoutes}),
+		e2e.BuildListener(e2e.ListenerSpec{Name: "c08h2", Addr: env.addr["http2"], Downstream: "Http2", Upstream: "Http2",
+			Routes: []e2e.RouteSpec{{Prefix: "/", Cluster: "c08h2up", TimeoutMs: 3000}}}),
+	}
+	lname := map[string]string{"bolt": "c08bolt", "dubbothrift": "c08thrift", "http1": "c08h1", "http2": "c08h2"}
+	clusters := e2e.BuildClusters([]e2e.ClusterSpec{{Name: "c08good", Hosts: []string{good.Addr}}, {Name: "c08bad", Hosts: []string{badHTTP}},
+		{Name: "c08boltup", Hosts: []string{boltUp}}, {Name: "c08h2up", Hosts: []string{h2Upstream()}}})
+	m := e2e.StartMosn(e2e.BuildConfig(listeners, clusters, e2e.ScratchLog(dir)))
+	defer m.Close()
+	for _, a := range env.addr {
+		vh.Must(e2e.WaitListen(a, 15*time.Second), "mosn listener")
+	}
+
+	// the process must not take the machine down with it: a heap explosion ends the run with a `wedged` event
+	go func() {
+		for {
+			time.Sleep(200 * time.Millisecond)
+			if h := heapMB(); h > 3000 {
+				tr.Emit(vh.Ev{"ev": "wedged", "heap_mb": h})
+				flush()
+				fmt.Println("WEDGED heap", h)
+				os.Exit(exitLoop)
+			}
+		}
+	}()
+
+	// ---- persistent probe connections, one per served protocol
+	pbID, pb, err := env.newConn("bolt")
+	vh.Must(err, "bolt probe")
+	pbR := bufio.NewReader(pb)
+	p1ID, p1, err := env.newConn("http1")
+	vh.Must(err, "http1 probe")
+	p1R := bufio.NewReader(p1)
+	h2tr := &xhttp2.Transport{AllowHTTP: true, DialTLS: func(network, addr string, _ *tls.Config) (net.Conn, error) {
+		return net.DialTimeout(network, addr, 5*time.Second)
+	}}
+	h2cl := &http.Client{Transport: h2tr, Timeout: waitServe}
+	p2ID := "http2-probe"
+	tr.Emit(vh.Ev{"ev": "open", "c": p2ID, "proto": "http2"})
+	seq := uint32(100)
+	h2ok := true
+	probeAll := func(what string) {
+		seq++
+		ok, d := serveBolt(pb, pbR, seq, "ok", waitServe)
+		tr.Emit(vh.Ev{"ev": "serve", "c": pbID, "ok": ok, "what": what, "detail": d})
+		ok, d = serveHTTP1(p1, p1R, "/p", fmt.Sprintf("t%d", seq), waitServe)
+		tr.Emit(vh.Ev{"ev": "serve", "c": p1ID, "ok": ok, "what": what, "detail": d})
+		if h2ok {
+			req, _ := http.NewRequest("GET", "http://"+env.addr["http2"]+"/p", nil)
+			req.Header.Set("X-Token", fmt.Sprintf("t%d", seq))
+			resp, err := h2cl.Do(req)
+			ok, d = false, fmt.Sprint(err)
+			if err == nil {
+				body, _ := io.ReadAll(resp.Body)
+				resp.Body.Close()
+				ok, d = resp.StatusCode == 200 && string(body) == fmt.Sprintf("t%d", seq), fmt.Sprintf("status %d", resp.StatusCode)
+			}
+			if what == "warm-up" && !ok {
+				h2ok = false // this build cannot serve HTTP/2 -> HTTP/1 at all: the HTTP/2 listener is left out (reported)
+				tr.Emit(vh.Ev{"ev": "note", "what": "http2 listener not usable: " + d})
+				return
+			}
+			tr.Emit(vh.Ev{"ev": "serve", "c": p2ID, "ok": ok, "what": what, "detail": d})
+		}
+	}
+	probeAll("warm-up")
+
+	// ---- one fresh connection per poison, all at once
+	type held struct {
+		id string
+		c  net.Conn
+		p  poison
+	}
+	var hmu sync.Mutex
+	heldConns := []held{}
+	var wg sync.WaitGroup
+	for i, p := range menu {
+		if p.Proto == "http2" && !h2ok {
+			continue
+		}
+		wg.Add(1)
+		go func(i int, p poison) {
+			defer wg.Done()
+			id, c, err := env.newConn(p.Proto)
+			if err != nil {
+				tr.Emit(vh.Ev{"ev": "serve", "c": fmt.Sprintf("%s-dial-%d", p.Proto, i), "ok": false, "what": "dial", "detail": err.Error()})
+				return
+			}
+			r := bufio.NewReader(c)
+			hmu.Lock()
+			heldConns = append(heldConns, held{id, c, p})
+			hmu.Unlock()
+			// a healthy exchange first (the connection exists inside the proxy)
+			switch p.Proto {
+			case "bolt":
+				ok, d := serveBolt(c, r, uint32(1000+i), "ok", waitServe)
+				tr.Emit(vh.Ev{"ev": "serve", "c": id, "ok": ok, "what": "before-poison", "detail": d})
+			case "http1":
+				ok, d := serveHTTP1(c, r, "/p", fmt.Sprintf("b%d", i), waitServe)
+				tr.Emit(vh.Ev{"ev": "serve", "c": id, "ok": ok, "what": "before-poison", "detail": d})
+			}
+			res, detail := "", ""
+			c.SetWriteDeadline(time.Now().Add(10 * time.Second))
+			if p.Side == "up" {
+				tr.Emit(vh.Ev{"ev": "poison", "c": id, "proto": p.Proto, "name": p.Name, "class": p.Class, "side": p.Side})
+				if p.Proto == "bolt" {
+					beh := "garbage"
+					if strings.Contains(p.Name, "dangling") {
+						beh = "dangling"
+					}
+					c.Write(boltFrame(1, 4242, 0, [][2]string{{"service", "c08"}, {"beh", beh}}, []byte("ping"), 0))
+				} else {
+					fmt.Fprintf(c, "GET /bad/x HTTP/1.1\r\nHost: c08.test\r\nX-Token: bad%d\r\n\r\n", i)
+				}
+				res, detail = observe(c, r, waitSeen)
+			} else {
+				b := poisonBytes(p)
+				if b == nil {
+					vh.Must(fmt.Errorf("poison %s/%s has no bytes", p.Proto, p.Name), "menu")
+				}
+				tr.Emit(vh.Ev{"ev": "poison", "c": id, "proto": p.Proto, "name": p.Name, "class": p.Class, "side": p.Side, "bytes": clipHex(b, 48)})
+				c.Write(b)
+				if p.Proto == "http2" {
+					res, detail = observeH2(c, waitSeen)
+					if p.Class == "valid" && res == "reply" && detail != "status 200" {
+						res = "closed" // an error instead of the answer
+					}
+				} else {
+					res, detail = observe(c, r, waitSeen)
+				}
+			}
+			tr.Emit(vh.Ev{"ev": "seen", "c": id, "res": res, "detail": detail, "name": p.Name, "proto": p.Proto})
+		}(i, p)
+	}
+	wg.Wait()
+
+	// ---- everybody else is still served: the persistent connections and fresh ones
+	probeAll("after-poisons")
+	for _, proto := range []string{"bolt", "http1"} {
+		id, c, err := env.newConn(proto)
+		if err != nil {
+			tr.Emit(vh.Ev{"ev": "serve", "c": proto + "-fresh", "ok": false, "what": "dial-after-poisons", "detail": err.Error()})
+			continue
+		}
+		var ok bool
+		var d string
+		if proto == "bolt" {
+			ok, d = serveBolt(c, bufio.NewReader(c), 9001, "ok", waitServe)
+		} else {
+			ok, d = serveHTTP1(c, bufio.NewReader(c), "/p", "fresh", waitServe)
+		}
+		tr.Emit(vh.Ev{"ev": "serve", "c": id, "ok": ok, "what": "fresh-after-poisons", "detail": d})
+		c.Close()
+		tr.Emit(vh.Ev{"ev": "close", "c": id})
+	}
+
+	// ---- the peers give up; nothing of theirs may stay behind
+	for _, h := range heldConns {
+		h.c.Close()
+		tr.Emit(vh.Ev{"ev": "close", "c": h.id})
+	}
+	for _, proto := range []string{"bolt", "dubbothrift", "http1", "http2"} {
+		if proto == "http2" && !h2ok {
+			continue
+		}
+		dl := time.Now().Add(waitSettle)
+		var g int64
+		for {
+			g = e2e.ListenerGauge(lname[proto], metrics.DownstreamRequestActive)
+			if g == 0 || time.Now().After(dl) {
+				break
+			}
+			time.Sleep(20 * time.Millisecond)
+		}
+		tr.Emit(vh.Ev{"ev": "gauge", "listener": lname[proto], "active": g})
+	}
+	probeAll("at-the-end")
+	tr.Emit(vh.Ev{"ev": "alive"})
+	tr.Close()
+	fmt.Printf("e2e poisons=%d events=%d http2=%v\n", len(menu), tr.Len(), h2ok)
+}
